@@ -456,6 +456,19 @@ class AWs:
         self.peer = peer
         self.closed = False
 
+    def __del__(self):
+        # aiohttp releases (closes) the connection of a response object
+        # nobody refers to any more; the client relies on that when it
+        # abandons a failed upgrade attempt
+        try:
+            if not self.closed:
+                self.closed = True
+                ws = getattr(self.conn, 'ws', None)
+                if ws is not None:
+                    ws.close()
+        except BaseException:
+            pass
+
     async def send_str(self, s):
         if not isinstance(s, str):       # as aiohttp does
             raise TypeError('data argument must be str (%r)' % type(s))
@@ -464,8 +477,7 @@ class AWs:
         try:
             await self.conn.asend(s)
         except WsClosed:
-            import aiohttp
-            raise aiohttp.client_exceptions.ServerDisconnectedError()
+            raise self._write_error()
 
     async def send_bytes(self, b):
         if not isinstance(b, (bytes, bytearray, memoryview)):
@@ -475,8 +487,25 @@ class AWs:
         try:
             await self.conn.asend(bytes(b))
         except WsClosed:
-            import aiohttp
-            raise aiohttp.client_exceptions.ServerDisconnectedError()
+            raise self._write_error()
+
+    def _write_error(self):
+        """What a failing frame write raises: aiohttp's own errors or - from
+        the transport / TLS layer below it - a plain OSError (the peer picks
+        one kind per conversation: peer.write_error_kind)."""
+        import aiohttp
+        import errno
+        kind = getattr(self.peer, 'write_error_kind', 'disconnected')
+        if kind == 'reset':
+            return aiohttp.ClientConnectionResetError(
+                'Cannot write to closing transport')
+        if kind == 'pipe':
+            return BrokenPipeError(errno.EPIPE, 'Broken pipe')
+        if kind == 'timeout':
+            return TimeoutError(errno.ETIMEDOUT, 'Connection timed out')
+        if kind == 'unreachable':
+            return OSError(errno.EHOSTUNREACH, 'No route to host')
+        return aiohttp.client_exceptions.ServerDisconnectedError()
 
     async def receive(self):
         import aiohttp
@@ -1243,6 +1272,7 @@ class PeerTConn:
 class PeerA:
     """Asyncio client <-> asyncio server (real ASGI adapter) on one loop."""
     lat = None
+    drop_probe_answers = 0
 
     def __init__(self, sim):
         self.sim = sim
@@ -1292,7 +1322,13 @@ class PeerA:
         ev = asyncio.Event()
         inbox = asyncio.Queue()
         ws.on_accept = lambda c: ev.set()
-        ws.on_frame = lambda c, fr: inbox.put_nowait(fr)
+
+        def on_frame(c, fr):
+            if fr == '3probe' and self.drop_probe_answers > 0:
+                self.drop_probe_answers -= 1    # lost on the way
+                return
+            inbox.put_nowait(fr)
+        ws.on_frame = on_frame
         ws.on_close = lambda c: inbox.put_nowait(CLOSED)
         t.on_done = lambda tk: ev.set()
         if t.done or ws.accepted:
